@@ -78,14 +78,63 @@ theorem create_holds_described {p : Prims} {cfg : Config} (hS : schemaOk cfg.sch
     have := copyEntries_untouched _ hc n hnone
     exact hget n w hca (by rw [this]; exact hw) hor
 
-/-! ### the forced network, the type constants -/
+theorem underscore_ne_network (s : String) : "_" ++ s ≠ "network" := by
+  intro h
+  have := congrArg String.toList h
+  simp [String.toList_append] at this
+
+/-- `create_holds_described` for the descriptors users write: a dict (keys pairwise distinct) that does not use the
+    private attribute of the member in question. Every entry `key: dv` whose key is the name of a member (`type_`,
+    `property_` for `type`, `property`) puts `stored default (coerced dv)` into that member. -/
+theorem create_holds_described_dict {p : Prims} {cfg : Config} (hS : schemaOk cfg.schema = true)
+    {autosort embedded : Bool} {desc : List (String × DVal)} {v : Val}
+    (h : create p cfg autosort embedded desc = .ok v) (hdict : (desc.map (·.1)).Nodup) :
+    ∃ ty d fresh vs,
+      resolve cfg embedded (withNetwork cfg desc) = .ok (ty, d) ∧
+      freshMembers cfg.schema ty = .ok fresh ∧ v = .struct ty vs ∧
+      ∀ key dv f, (key, dv) ∈ withNetwork cfg desc → key ≠ "type" → classify cfg ty d key = .member f true →
+        (∀ kv ∈ desc, kv.1 ≠ "_" ++ fixName f.name) → computedAfter cfg f.name = false →
+        ∃ cv, coerce cfg true true (slotOf f.kind) dv = .ok cv ∧
+          (autosort = false ∨ isAtom (stored (Val.get fresh f.name) cv) = true →
+            Val.get vs f.name = some (stored (Val.get fresh f.name) cv)) := by
+  obtain ⟨ty, d, fresh, vs, hr, hf, hv, -, hdesc, -⟩ := create_holds_described hS h
+  refine ⟨ty, d, fresh, vs, hr, hf, hv, ?_⟩
+  intro key dv f hmem hkey hcl hpriv hca
+  obtain ⟨pre, post, hsplit⟩ := List.append_of_mem hmem
+  have hkeys := nodup_split_keys (withNetwork_nodup (cfg := cfg) hdict) hsplit
+  have hkeyeq : key = fixName f.name := by
+    rcases classify_member_key hcl with ⟨-, hk⟩ | ⟨hf', -⟩
+    · exact hk
+    · cases hf'
+  apply hdesc pre key dv post f true hsplit hkey hcl _ hca
+  intro kv hkv ht
+  have hin : kv ∈ withNetwork cfg desc := by
+    rw [hsplit]
+    rcases List.mem_append.1 hkv with h1 | h1
+    · exact List.mem_append_left _ h1
+    · exact List.mem_append_right _ (List.mem_cons_of_mem _ h1)
+  rcases targetOf_keys ht with hk | hk
+  · exact hkeys kv hkv (hk.trans hkeyeq.symm)
+  · have hmem' : kv.1 ∈ (withNetwork cfg desc).map (·.1) := List.mem_map_of_mem hin
+    rw [withNetwork_keys] at hmem'
+    have hmem'' : kv.1 ∈ desc.map (·.1) := by
+      split at hmem'
+      · exact hmem'
+      · rcases List.mem_append.1 hmem' with h1 | h1
+        · exact h1
+        · simp only [List.mem_singleton] at h1
+          rw [hk] at h1; exact absurd h1 (underscore_ne_network _)
+    rw [List.mem_map] at hmem''
+    obtain ⟨kv', hkv', he⟩ := hmem''
+    exact hpriv kv' hkv' (he.trans hk)
 
 /-! ### the forced network, the type constants -/
 
 /-- **The network is the facade's.** Whatever a descriptor (a dict: keys pairwise distinct) says under `network`, the
     member `network` of the created transaction holds the facade's identifier, which is a member of `NetworkType` —
-    unless the descriptor also writes to the private attribute `_network` (see `private_key_accepted`). The two
-    hypotheses on the resolved type hold for every shipped transaction type (`shipped_types_ok`). -/
+    unless the descriptor also writes to the private attribute `_network` (see `private_key_accepted`). The
+    hypothesis on the resolved type holds for every shipped transaction type (`create_network_forced_of_configOk` with
+    `symbol_config_ok` / `nem_config_ok`). -/
 theorem create_network_forced {p : Prims} {cfg : Config} (hS : schemaOk cfg.schema = true)
     {autosort embedded : Bool} {desc : List (String × DVal)} {v : Val}
     (h : create p cfg autosort embedded desc = .ok v)
